@@ -24,7 +24,7 @@ ASSUMPTIONS = [
     "strict JSON equality: json.dumps(sort_keys=True) text",
     "array elements (and members of objects inside arrays) avoid bool/float values equal to ints: the third-party jsonpatch library diffs arrays with Python ==",
 ]
-FLOORS = {"quick": {"fragments_applied": 3000, "patches_applied": 2000, "filters_applied": 1500, "glob_patterns": 2000, "chains": 300, "chains_with_descending_reload_prio": 100, "runner_cases": 300, "deploy_uploads": 150},
+FLOORS = {"quick": {"fragments_applied": 3000, "patches_applied": 2000, "filters_applied": 1500, "glob_patterns": 2000, "chains": 300, "chains_with_descending_reload_prio": 100, "runner_cases": 300, "deploy_uploads": 150, "interleaved_two_file_chains": 400},
           "thorough": {"fragments_applied": 150000, "patches_applied": 100000, "filters_applied": 70000, "glob_patterns": 90000, "chains": 15000, "chains_with_descending_reload_prio": 5000, "runner_cases": 15000, "deploy_uploads": 8000}}
 KEYS = ["a", "b", "c", "a/b", "m~n", "x|y", "*", "0", "Ethernet0", "Ethernet4"]
 SCALARS = [0, 1, 2, True, False, None, 1.0, "s", "xyz", "", "1"]
@@ -453,6 +453,49 @@ def check_chain(rng, schema, acc, seed):
                           dict(w, got=files["/etc/x.json"][1], expected="r%d" % winners[0]))
 
 
+def check_interleaved(seed, acc):
+    """generators of two files listed in an interleaved order (A, B, A ...): each file's document is the sequential merge of ITS generators' fragments"""
+    from annet.generators.result import RunGeneratorResult
+    from annet.annlib import jsontools
+    import types
+    rng = random.Random(seed)
+    schema = ("object", {k: gen_schema(rng, 1) for k in rng.sample(KEYS, rng.randint(2, 4))})
+    paths_ = ["/etc/a.json", "/etc/b.json"]
+    old = {p_: (gen_doc(rng, schema) if rng.random() < 0.8 else None) for p_ in paths_}
+    seq = rng.choice([[0, 1, 0], [0, 1, 1, 0], [1, 0, 1], [0, 1, 0, 1], [0, 0, 1, 0]])
+    res = RunGeneratorResult()
+    frs = []
+    for i, fi in enumerate(seq):
+        frag = gen_doc(rng, schema, 0.6)
+        acl = [p for p in gen_patterns(rng, schema, False)]
+        frs.append((paths_[fi], frag, acl))
+        res.add_json_fragment(types.SimpleNamespace(name="g%d" % i, path=paths_[fi], acl=acl, acl_safe=acl, config=frag, reload="r%d" % i, reload_prio=10 + i))
+    w = {"seed": seed, "op": "interleaved", "old": old, "fragments": frs}
+    docs = [d for d in old.values() if d is not None] + [f for _, f, _ in frs]
+    if any(has_array_step(p, docs) for _, _, a in frs for p in a):
+        acc.count("interleaved_skipped_array_step")
+        return
+    try:
+        files = res.new_json_fragment_files(dict(old))
+        exp = {}
+        for p_ in paths_:
+            cur = old[p_] if old[p_] is not None else {}
+            for fp, frag, acl in frs:
+                if fp == p_:
+                    cur = jsontools.apply_json_fragment(cur, frag, acl)
+            exp[p_] = cur
+    except Exception as e:
+        acc.violation("C13/chain/exception-%s" % type(e).__name__, "chaining fragments raised", dict(w, error=repr(e)[:200]))
+        return
+    acc.count("interleaved_two_file_chains")
+    acc.case(["interleaved", old, frs], nontrivial=True)
+    for p_ in paths_:
+        if p_ not in files or J(files[p_][0]) != J(exp[p_]):
+            acc.violation("C13/chain/differs-from-sequential-merge", "several generators over one file do not give the result of merging their fragments one after another",
+                          dict(w, file=p_, got=files.get(p_, [None])[0], expected=exp[p_]))
+            return
+
+
 def check_runner_and_deploy(seed, acc):
     """real JSONFragment generators through run_file_generators -> new_json_fragment_files (plain and --acl-safe) ->
     PCDeployerJob: the uploaded JSON patch applied to what the device has (file absent / {} / a document) gives the merged document"""
@@ -579,6 +622,8 @@ def run_shard(spec, acc):
     if spec["mode"] == "replay":
         if spec["witness"].get("op") == "runner":
             check_runner_and_deploy(spec["witness"]["seed"], acc)
+        elif spec["witness"].get("op") == "interleaved":
+            check_interleaved(spec["witness"]["seed"], acc)
         else:
             run_case(spec["witness"]["seed"], acc)
         return
@@ -592,3 +637,5 @@ def run_shard(spec, acc):
             acc.sample({"seed": s})
         if j % 10 == 0:
             check_runner_and_deploy(rng.randrange(1 << 48), acc)
+        if j % 10 == 5:
+            check_interleaved(rng.randrange(1 << 48), acc)
